@@ -59,55 +59,67 @@ package c64
 //@ func AxpyUnitary props: C01(frame) C07(safety) C08
 //@ requires len(y) >= len(x)
 //@ writes y[k] for k in 0..len(x)
+//@ reads x[k] for k in 0..len(x)
 //@ ensures noclash(y, x) ==> forall(k, 0, len(x), same(y[k], old(y[k]) + alpha*old(x[k])))
 
 //@ func AxpyUnitaryTo props: C01(frame) C07(safety) C08
 //@ requires len(y) >= len(x) && len(dst) >= len(x)
 //@ writes dst[k] for k in 0..len(x)
+//@ reads x[k] for k in 0..len(x) ; y[k] for k in 0..len(x)
 //@ ensures noclash(dst, x) && noclash(dst, y) ==> forall(k, 0, len(x), same(dst[k], alpha*old(x[k]) + old(y[k])))
 
 //@ func AxpyInc props: C01(frame) C07(safety) C08
 //@ requires int(n) >= 0 && strided(x, int(ix), int(n), int(incX)) && strided(y, int(iy), int(n), int(incY))
 //@ writes y[int(iy)+k*int(incY)] for k in 0..int(n)
+//@ reads x[int(ix)+k*int(incX)] for k in 0..int(n)
 //@ ensures disjoint(x, y) && int(incY) != 0 ==> forall(k, 0, int(n), same(y[int(iy)+k*int(incY)], old(y[int(iy)+k*int(incY)]) + alpha*old(x[int(ix)+k*int(incX)])))
 
 //@ func AxpyIncTo props: C01(frame) C07(safety) C08
 //@ requires int(n) >= 0 && strided(x, int(ix), int(n), int(incX)) && strided(y, int(iy), int(n), int(incY))
 //@ requires strided(dst, int(idst), int(n), int(incDst))
 //@ writes dst[int(idst)+k*int(incDst)] for k in 0..int(n)
+//@ reads x[int(ix)+k*int(incX)] for k in 0..int(n) ; y[int(iy)+k*int(incY)] for k in 0..int(n)
 //@ ensures disjoint(dst, x) && disjoint(dst, y) && int(incDst) != 0 ==> forall(k, 0, int(n), same(dst[int(idst)+k*int(incDst)], alpha*old(x[int(ix)+k*int(incX)]) + old(y[int(iy)+k*int(incY)])))
 
 //@ func ScalUnitaryTo props: C01(frame) C07(safety) C08
 //@ requires len(dst) >= len(x)
 //@ writes dst[k] for k in 0..len(x)
+//@ reads x[k] for k in 0..len(x)
 //@ ensures noclash(dst, x) ==> forall(k, 0, len(x), same(dst[k], alpha * old(x[k])))
 
 //@ func ScalIncTo props: C01(frame) C07(safety) C08
 //@ requires int(n) >= 0 && strided(x, 0, int(n), int(incX)) && strided(dst, 0, int(n), int(incDst))
 //@ writes dst[k*int(incDst)] for k in 0..int(n)
+//@ reads x[k*int(incX)] for k in 0..int(n)
 //@ ensures disjoint(dst, x) && int(incDst) != 0 ==> forall(k, 0, int(n), same(dst[k*int(incDst)], alpha * old(x[k*int(incX)])))
 
 //@ func DotUnitary DotcUnitary DotuUnitary props: C01(frame) C07(safety) C08
 //@ requires len(y) >= len(x)
 //@ writes nothing
+//@ reads x[k] for k in 0..len(x) ; y[k] for k in 0..len(x)
 
 //@ func DotcInc DotuInc props: C01(frame) C07(safety) C08
 //@ requires int(n) >= 0 && strided(x, int(ix), int(n), int(incX)) && strided(y, int(iy), int(n), int(incY))
 //@ writes nothing
+//@ reads x[int(ix)+k*int(incX)] for k in 0..int(n) ; y[int(iy)+k*int(incY)] for k in 0..int(n)
 
 //@ func ScalUnitary props: C01(frame) C07(safety) C08
 //@ writes x[k] for k in 0..len(x)
+//@ reads nothing
 //@ ensures forall(k, 0, len(x), same(x[k], old(x[k]) * alpha))
 
 //@ func SscalUnitary props: C01(frame) C07(safety) C08
 //@ writes x[k] for k in 0..len(x)
+//@ reads nothing
 
 //@ func ScalInc props: C01(frame) C07(safety) C08
 //@ requires int(n) >= 0 && strided(x, 0, int(n), int(incX))
 //@ writes x[k*int(incX)] for k in 0..int(n)
+//@ reads nothing
 //@ ensures int(incX) != 0 ==> forall(k, 0, int(n), same(x[k*int(incX)], old(x[k*int(incX)]) * alpha))
 
 //@ func SscalInc props: C01(frame) C07(safety) C08
 //@ requires int(n) >= 0 && strided(x, 0, int(n), int(inc))
 //@ writes x[k*int(inc)] for k in 0..int(n)
+//@ reads nothing
 
